@@ -33,7 +33,7 @@ RULE = ("stream ipgrep: texts of 0..14 words drawn from valid / boundary (networ
         "which receives per word what IPv4Obj/IPv6Obj parse (oracle) and the three renderings of that value computed with the standard library. "
         "stream macgrep: the same for MAC/EUI-64 words in four spellings and invalid look-alikes x regex lists x {--unique, --line} x delimiter; "
         "the oracle is macaddress.parse + re.search on the four spellings. non-trivial = at least one word printed and one valid word suppressed "
-        "(outside every subnet / excluded / duplicate), distinct by options and counts. aux: parent/child/branch/diff subcommands vs the API (test only).")
+        "(outside every subnet / excluded / duplicate), distinct by options and counts. aux: parent/child/branch/diff subcommands vs the API (test only). macgrep regexes include, per spelling, one that only that spelling satisfies, in lower and in upper case.")
 EXHAUSTIVE = {"quick": False, "thorough": False}
 TRUSTED = [
     "Coq 8.16.1 kernel incl. vm_compute",
